@@ -290,6 +290,23 @@ BootF(db, blocks, tipH) ==
         rIndex |-> blocks, reorged |-> {}, memo |-> {}, reachable |-> TRUE]
 
 -----------------------------------------------------------------------------
+(* The operator's view (private API behind teos-cli): read-only functions of the state. *)
+(***************************************************************************)
+WatcherAppts(st) == {a \in st.appts : ~HasKey(st.trackers, Key(a))}      \* held by the Watcher: not (yet) responded
+
+CliViewF(st, asked) ==
+    [n_users    |-> Cardinality(st.gk),
+     n_appts    |-> Cardinality(WatcherAppts(st)),
+     n_trackers |-> Cardinality(st.trackers),
+     reachable  |-> st.reachable,
+     users      |-> {r.u : r \in st.gk},
+     per_user   |-> {IF HasUser(st.gk, u)
+                     THEN <<u, "ok", UserOf(st.gk, u).slots, UserOf(st.gk, u).expiry, {a.l : a \in {x \in st.appts : x.u = u}}>>
+                     ELSE <<u, "notfound", 0, 0, {}>> : u \in asked},
+     appts      |-> {<<a.l, a.key, a.pay, a.size, a.tsd>> : a \in WatcherAppts(st)},
+     trackers   |-> {<<t.d, t.p>> : t \in st.trackers}]
+
+-----------------------------------------------------------------------------
 (* Structural invariants of the durable state (foreign keys, C03/C07).     *)
 (***************************************************************************)
 
